@@ -4,7 +4,7 @@
 From LLGoV Require Import C06.Model C06.Simple.
 Local Open Scope N_scope.
 
-Definition sB : N := 3.
+Definition sB : N := 6.
 Definition shash (k : N) : N := canon k.
 Definition S_lookup := slookup N N keq shash sB.
 
